@@ -272,7 +272,13 @@ pub fn tamper_statement(
             };
         },
         "g_base" | "h_base" => {
-            let mut pc = ristretto::create_pedersen_gens_with_extension_degree(ext_degree(x));
+            // from_used: the altered generators are a CLONE OF THE OBJECT THE PROVER ALREADY USED with one field overwritten (whatever the
+            // library derived from the generators when it first used them must not survive the clone-and-modify)
+            let mut pc = if spec["from_used"].as_bool().unwrap_or(false) {
+                st.generators.pc_gens().clone()
+            } else {
+                ristretto::create_pedersen_gens_with_extension_degree(ext_degree(x))
+            };
             if op == "h_base" {
                 pc.h_base = env::free_point(&format!("hx_{}", idx));
                 pc.h_base_compressed = pc.h_base.compress();
@@ -338,6 +344,22 @@ pub fn run_adversarial(cfg: &Value) -> Value {
         let sn = mc["n"].as_u64().unwrap_or(n as u64) as usize;
         let mut pc_gens = ristretto::create_pedersen_gens_with_extension_degree(ext_degree(sx));
         let mut gen_ids = Value::Null;
+        if mc["gens_used_first"].as_bool().unwrap_or(false) && sn >= 2 {
+            // the generator object is USED once (a verification over it, refused at the end) and the scenario's generators are a clone of
+            // that used object with fields overwritten
+            let p0 = RangeParameters::init(sn, 1, pc_gens).expect("params");
+            let st0 = RangeStatement::init(p0, vec![env::free_point(&format!("Vuse_{}", i))], vec![None], None).expect("statement");
+            let r0 = sn.trailing_zeros() as usize;
+            let mut b0 = vec![sx as u8];
+            for e in 0..(sx + 5 + 2 * r0) {
+                let is_point = !matches!(role(sx, e).0, "d1" | "r1" | "s1");
+                b0.extend_from_slice(&env::new_elem(is_point, &format!("use_{}_{}", i, e)).0);
+            }
+            if let Ok(p0) = RistrettoRangeProof::from_bytes(&b0) {
+                let _ = catch_unwind(AssertUnwindSafe(|| RistrettoRangeProof::verify_batch(&mut [Transcript::new(b"first use")], &[st0.clone()], &[p0], VerifyAction::VerifyOnly)));
+            }
+            pc_gens = st0.generators.pc_gens().clone();
+        }
         if mc["free_gens"].as_bool().unwrap_or(false) {
             // caller-chosen commitment generators: free points, so that they are data of the scenario
             pc_gens.h_base = env::free_point(&format!("Hgen_{}", i));
